@@ -34,6 +34,9 @@ THEOREMS = [
     "TornadoModel.C04.run_closed_absorbs",
     "TornadoModel.C04.gz_run_oversize_refused",
     "TornadoModel.C04.gz_run_size_gt_rejected",
+    "TornadoModel.C04.gz_run_beyond_refused",
+    "TornadoModel.C04.gz_run_accepted_whole",
+    "TornadoModel.C04.run_cl_within_delivered",
     "TornadoModel.C04.raw_body_limit_exact",
     "TornadoModel.C04.raw_body_limit_absent",
     "TornadoModel.C04.raw_delivered_le_configured",
@@ -63,19 +66,18 @@ RULE = ("server options as the application passes them: max_body_size 0 / 1..409
         "block within 2 bytes of its limit or beyond it; distinct by canonical JSON")
 EXHAUSTIVE = {"quick": False, "thorough": False}
 CLAUSE_CAVEATS = [
-    "refusal is now proved at run level (run_header_oversize_closed, run_cl_oversize_refused, run_chunk_oversize_refused: any reachable message boundary / chunk-size line, any segmentation of what follows, exact trace = no data, no fin, closed); the exactness lemmas *_at_limit_ok (a message of exactly the limit is accepted) are still one-step statements; at run level 'within the limits is unaffected' is limits_monotone plus the tie against Spec.readAll",
-    "gzip: gz_run_oversize_refused covers the FIRST decompressor answer of a data_received call (after any earlier calls); an over-limit answer later inside the same `while compressed_data` loop is covered by gz_delivered_le_limit / gz_run_size_gt_rejected (size counter over the limit => rejected) but has no exact-trace theorem",
-    "the gzip delegate machine is proved on its own (gz_delivered_le_limit, gz_run_*) and is composed with the connection machine only by the tie: that its HTTPInputError becomes 400 + close, and that the delegate's limit is the connection's effLimit, is checked on every gzip case, not proved; gzRun takes ONE limit for the whole body (the code re-reads connection._max_body_size per chunk; the harness delegate changes it only in headers_received)",
+    "run level is proved for: refusal of an oversize header block / Content-Length / chunk (run_*_refused, run_header_oversize_closed) and acceptance of a header block <= max_header_size with a non-empty Content-Length body <= the limit, equality included (run_cl_within_delivered, persistent connection); the chunked exactness lemma chunk_at_limit_ok (a chunk reaching the limit exactly is accepted) is still a one-step statement, carried at run level by the tie against Spec.readAll",
+    "the gzip delegate machine is proved on its own (gz_delivered_le_limit, gz_run_beyond_refused, gz_run_accepted_whole: all call sequences, all decompressor behaviours) and is composed with the connection machine only by the tie: that its HTTPInputError becomes 400 + close, and that the delegate's limit is the connection's effLimit of the request's position, is checked on every gzip case (also for a gzip request that is not the first of its connection), not proved; gzRun takes ONE limit for the whole body (the code re-reads connection._max_body_size per decompressor answer; the harness delegate changes it only in headers_received)",
     "limits_monotone requires that the run under the smaller limits never closed the connection, so it says nothing for a stream ending in a non-persistent (Connection: close / HTTP/1.0) request; those are covered by the tie only",
 ]
 CLAUSES = {
     "header block larger than max_header_size is refused and the connection closed": "run_header_oversize_closed, run_header_oversize_first (run level: any reachable boundary, any segmentation; trace = closed only), run_closed_absorbs; one-step: header_oversize_closed, header_unterminated_closed, header_at_limit_ok",
     "declared body larger than max_body_size (or the per-request override) refused": "run_cl_oversize_refused, run_cl_oversize_no_data, run_body_refused (run level, limit = effLimit of the request's position incl. overrides; trace = req, 400, closed, connClose; no data, no fin); one-step: cl_oversize_rejected, oversize_body_closed, cl_at_limit_ok",
     "chunked body larger than the limit refused": "run_chunk_oversize_refused (run level: bytes already handed over + declared chunk size > effLimit => 400, closed, nothing more delivered); one-step: chunk_oversize_rejected, chunk_at_limit_ok",
-    "gzip body decompressing beyond the limit refused": "gz_run_oversize_refused, gz_run_size_gt_rejected (delegate level, all call sequences and decompressor behaviours), gz_oversize_rejected (one iteration); 400 + close for the delegate's HTTPInputError: tie only",
+    "gzip body decompressing beyond the limit refused": "gz_run_beyond_refused (total decompressor output over the consumed answers > limit, at any call / loop iteration => HTTPInputError, delivered <= limit), gz_run_oversize_refused, gz_run_size_gt_rejected (delegate level, all call sequences and decompressor behaviours), gz_oversize_rejected (one iteration); 400 + close for the delegate's HTTPInputError: tie only",
     "application is handed at most max_body_size body bytes": "delivered_le_limit, delivered_le_limit_eof, withinLimits_run (all streams, segmentations, overrides), gz_delivered_le_limit (all decompressor behaviours)",
     "limit values (configurations): the configured max_body_size is the limit for every value incl. 0, None falls back to max_buffer_size": "raw_body_limit_exact, raw_body_limit_absent, raw_delivered_le_configured, raw_zero_delivers_nothing, raw_zero_cl_rejected (Raw.cfg models `is not None` / `or 65536` / `or 104857600`)",
-    "requests within the limits are unaffected": "limits_monotone, limits_monotone_state (raising the limits does not change a run that never closed); boundary exactness by *_at_limit_ok; checked on every case against Spec.readAll",
+    "requests within the limits are unaffected": "run_cl_within_delivered (run level: header block <= max_header_size and Content-Length <= limit, equality included, is delivered whole and finished), gz_run_accepted_whole (a gzip body not refused is handed over completely), limits_monotone, limits_monotone_state (raising the limits does not change a run that never closed); one-step exactness by *_at_limit_ok; checked on every case against Spec.readAll",
 }
 PARALLEL = True
 CASE_TIMEOUT = 120
